@@ -754,3 +754,194 @@ Lemma float_key_reference_accepted :
   N.land DT_Float Allow_Keyable <> 0 /\
   accepts default_rcfg [EBeginDoc; EVersion 0; EMap; EFloat 0] = false.
 Proof. vm_compute. repeat split; discriminate. Qed.
+
+(* ------------------------------------------------------------------------- *)
+(* The empty initial markerID is never registered                             *)
+(* ------------------------------------------------------------------------- *)
+Definition crules (c : rctx) : list rule := e_rule (cur c) :: srules c.
+(* a marker id has been set, or no marker entry is open *)
+Definition NE (c : rctx) : Prop := marker_id c <> [] \/ count_cl KMarker (crules c) = O.
+Definition NM (c : rctx) : Prop := ~ In [] (akeys (marked c)).
+Definition NE_Ra (m : meth) (a : args) : Prop := m = MMarker -> a_id a <> [].
+
+Lemma count_cl_in r rs : In r rs -> rclass_of r = KMarker -> count_cl KMarker rs <> O.
+Proof.
+  induction rs as [|x rs IH]; intros I K; [destruct I|]; destruct I as [->|I]; rewrite count_cl_cons.
+  - rewrite K. cbn. lia.
+  - specialize (IH I K). lia.
+Qed.
+
+(* every statement keeps a non-empty marker id non-empty, and the registry free of the empty id *)
+Lemma nonempty_prim cfg call :
+  (forall r m a c c', NE_Ra m a -> call r m a c = Some c' -> In r (crules c) -> marker_id c <> [] -> NM c -> marker_id c' <> [] /\ NM c') ->
+  forall self m a p c c', NE_Ra m a -> MS_pok m p = true -> exec_prim cfg call self m a p c = Some c' ->
+  marker_id c <> [] -> NM c -> marker_id c' <> [] /\ NM c'.
+Proof.
+  intros Hcall self m a p c c' Ha Hp E.
+  assert (forall dt c0 c1, mark_object cfg dt c0 = Some c1 -> marker_id c0 <> [] -> NM c0 -> marker_id c1 <> [] /\ NM c1) as HM.
+  { unfold mark_object, NM. intros dt c0 c1 H B N. inv_some; rsimpl; (split; [exact B|]);
+      intro I; apply akeys_aset in I as [I|I]; auto. }
+  assert (forall id al c0 c1, local_reference id al c0 = Some c1 -> marker_id c0 <> [] -> NM c0 -> marker_id c1 <> [] /\ NM c1) as HL.
+  { unfold local_reference, NM. intros id al c0 c1 H B N. inv_some; rsimpl; auto. }
+  prim_cases_keep p E; intros B N; cbn [MS_pok] in Hp; rsimpl;
+    try (split; [exact B | exact N]);
+    try (eapply HM; eassumption); try (eapply HL; eassumption);
+    try match goal with
+    | H : call _ ?m' _ _ = Some _ |- _ =>
+        refine (Hcall _ _ _ _ _ _ H _ _ _);
+          [ unfold NE_Ra; cbn [a_id with_dtype no_args with_key]; first [ intro X; discriminate X | idtac ]
+          | unfold crules, srules; rsimpl; first [ left; reflexivity | right; match goal with S : stack _ = _ :: _ |- _ => rewrite S end; left; reflexivity ]
+          | exact B | exact N ]
+    end.
+  - destruct m; try discriminate Hp. split; [apply Ha; reflexivity | exact N].
+  - destruct m; try discriminate Hp. split; [apply Ha; reflexivity | exact N].
+  - unfold NE_Ra in *. intro X. subst. cbn in Hp. destruct m; try discriminate Hp. auto.
+  - unfold NE_Ra in *. intro X. subst. cbn in Hp. destruct m; try discriminate Hp. auto.
+Qed.
+
+(* statements allowed in cells of rules that are not marker rules *)
+Definition modeB_ok (p : prim) : bool :=
+  match p with
+  | PMarkObject _ | PForwardParent _ => false
+  | PChangeRule r' => negb (rclass_eqb (rclass_of r') KMarker)
+  | _ => true
+  end.
+
+Lemma NE_le c c' :
+  marker_id c' = marker_id c -> (count_cl KMarker (crules c') <= count_cl KMarker (crules c))%nat -> NE c -> NE c'.
+Proof. unfold NE. intros -> L [H|H]; [left; exact H | right; lia]. Qed.
+
+Ltac count_tac :=
+  unfold crules, srules; rsimpl; cbn [map];
+  repeat match goal with H : stack _ = _ :: _ |- _ => rewrite H end; cbn [map];
+  rewrite ?count_cl_cons; cbn [rclass_of rclass_eqb];
+  repeat match goal with |- context [if ?b then _ else _] => destruct b end; lia.
+
+Lemma modeB_prim cfg call :
+  (forall r m a c c', call r m a c = Some c' -> In r (crules c) -> NE_Ra m a -> NE c -> NM c -> NE c' /\ NM c') ->
+  forall self m a p c c', NE_Ra m a -> MS_pok m p = true -> modeB_ok p = true ->
+    exec_prim cfg call self m a p c = Some c' -> NE c -> NM c -> NE c' /\ NM c'.
+Proof.
+  intros Hcall self m a p c c' Ha Hp Hb E.
+  assert (forall id al c0 c1, local_reference id al c0 = Some c1 -> NE c0 -> NM c0 -> NE c1 /\ NM c1) as HL.
+  { unfold local_reference. intros id al c0 c1 H B N. inv_some; [auto|]. split; [|exact N].
+    eapply NE_le; [| |exact B]; [reflexivity | unfold crules, srules; rsimpl; lia]. }
+  prim_cases_keep p E; intros B N; cbn [MS_pok modeB_ok] in Hp, Hb; try discriminate Hb;
+    try (eapply HL; eassumption);
+    try (split; [eapply NE_le; [| |exact B]; [reflexivity | count_tac] | exact N]; fail);
+    try match goal with
+    | H : call _ ?m' _ ?c2 = Some _ |- _ =>
+        refine (Hcall _ _ _ _ _ H _ _ _ _);
+          [ unfold crules, srules; rsimpl; left; reflexivity
+          | unfold NE_Ra; cbn [a_id with_dtype no_args with_key]; first [ intro X; discriminate X | idtac ]
+          | eapply NE_le; [| |exact B]; [reflexivity | count_tac]
+          | exact N ]
+    end.
+  - destruct m; try discriminate Hp. split; [left; rsimpl; apply Ha; reflexivity | exact N].
+  - destruct m; try discriminate Hp. split; [left; rsimpl; apply Ha; reflexivity | exact N].
+  - intro X. subst. cbn in Hp. destruct m; try discriminate Hp. apply Ha. reflexivity.
+Qed.
+
+Definition rule_is_marker (r : rule) : bool := rclass_eqb (rclass_of r) KMarker.
+Lemma modeB_table :
+  table_forall (fun r _ cell => has_reject cell || rule_is_marker r || forallb modeB_ok cell) = true.
+Proof. vm_compute. reflexivity. Qed.
+
+Definition NEPost (r : rule) (m : meth) (a : args) (c c' : rctx) : Prop :=
+  In r (crules c) -> NE_Ra m a -> NE c -> NM c -> NE c' /\ NM c' /\ (marker_id c <> [] -> marker_id c' <> []).
+
+Theorem call_rule_nonempty cfg f r m a c c' : call_rule f cfg r m a c = Some c' -> NEPost r m a c c'.
+Proof.
+  apply (call_rule_ind_gen cfg NEPost).
+  intros call Hcall r0 m0 a0 c0 c0' H Hin Ha B N.
+  pose proof (table_forall_spec _ MS_table r0 m0) as T1. cbn beta in T1.
+  apply orb_true_iff in T1 as [T1|T1]; [rewrite exec_prims_reject in H by exact T1; discriminate|].
+  assert (forall r1 m1 a1 c4 c5, NE_Ra m1 a1 -> call r1 m1 a1 c4 = Some c5 -> In r1 (crules c4) ->
+                                 marker_id c4 <> [] -> NM c4 -> marker_id c5 <> [] /\ NM c5) as HcA.
+  { intros r1 m1 a1 c4 c5 Ra1 Hc I4 B4 N4. destruct (Hcall _ _ _ _ _ Hc I4 Ra1 (or_introl B4) N4) as [_ [N5 B5]]. auto. }
+  (* whenever the marker id is non-empty it stays so *)
+  assert (forall ps c1 c2, forallb (MS_pok m0) ps = true -> exec_prims cfg call r0 m0 a0 ps c1 = Some c2 ->
+                           marker_id c1 <> [] -> NM c1 -> marker_id c2 <> [] /\ NM c2) as ModeA.
+  { induction ps as [|p ps IH]; intros c1 c2 Tp E B1 N1; cbn [exec_prims forallb] in *; [inv_some; auto|].
+    apply andb_true_iff in Tp as [Tp Tps]. destruct (exec_prim cfg call r0 m0 a0 p c1) as [c3|] eqn:E3; [|discriminate].
+    destruct (nonempty_prim cfg call HcA _ _ _ _ _ _ Ha Tp E3 B1 N1) as [B3 N3]. eauto. }
+  assert (marker_id c0 <> [] -> marker_id c0' <> []) as Third.
+  { intro B0. exact (proj1 (ModeA _ _ _ T1 H B0 N)). }
+  pose proof (table_forall_spec _ modeB_table r0 m0) as T2. cbn beta in T2.
+  apply orb_true_iff in T2 as [T2|T2]; [apply orb_true_iff in T2 as [T2|T2]|].
+  - rewrite exec_prims_reject in H by exact T2. discriminate.
+  - (* a marker rule: some marker entry is open, so the id is set *)
+    unfold rule_is_marker in T2. apply rclass_eqb_eq in T2.
+    destruct B as [B|B]; [|exfalso; exact (count_cl_in _ _ Hin T2 B)].
+    destruct (ModeA _ _ _ T1 H B N) as [B' N']. split; [left; exact B' | split; [exact N' | exact Third]].
+  - (* another rule: no registration in this cell *)
+    assert (forall r1 m1 a1 c4 c5, call r1 m1 a1 c4 = Some c5 -> In r1 (crules c4) -> NE_Ra m1 a1 -> NE c4 -> NM c4 -> NE c5 /\ NM c5) as HcB.
+    { intros r1 m1 a1 c4 c5 Hc I4 Ra1 B4 N4. destruct (Hcall _ _ _ _ _ Hc I4 Ra1 B4 N4) as [B5 [N5 _]]. auto. }
+    assert (NE c0' /\ NM c0') as [B' N']; [|split; [exact B' | split; [exact N' | exact Third]]].
+    clear Third Hin. revert c0 H B N. induction (dispatch r0 m0) as [|p ps IH]; intros c0 H B N; cbn [exec_prims forallb] in *; [inv_some; auto|].
+    apply andb_true_iff in T1 as [Tp1 Tps1]. apply andb_true_iff in T2 as [Tp2 Tps2].
+    destruct (exec_prim cfg call r0 m0 a0 p c0) as [c3|] eqn:E3; [|discriminate].
+    destruct (modeB_prim cfg call HcB _ _ _ _ _ _ Ha Tp1 Tp2 E3 B N) as [B3 N3].
+    eapply IH; eauto.
+Qed.
+
+Lemma plan_args_marker cfg e pl : ev_plan cfg e = Some pl -> NE_Ra (p_meth pl) (p_args pl).
+Proof.
+  unfold NE_Ra. intros P M. revert P M.
+  destruct e as [| |v| |m t| |b| | |n|n|z|[z|]|bits|[bf|]|[| | |]|[[| | |]|]|s|b|s| | |id|id| | | |id|id|t cnt d|t d|mt d|ct d|ct d|t|mt|t ct|n m|d];
+    cbn [ev_plan]; intros P M;
+    repeat match goal with H : (if ?b then _ else _) = Some _ |- _ => destruct b eqn:?; try discriminate H end;
+    unfold mkplan in P; inv_some; try discriminate M. cbn. eapply validate_identifier_nonempty; eauto.
+Qed.
+
+Lemma rstep_nonempty cfg c e c' o : rstep cfg c e = Some (c', o) -> NE c -> NM c -> NE c' /\ NM c'.
+Proof.
+  rewrite rstep_plan. destruct (ev_plan cfg e) as [pl|] eqn:P; [|discriminate].
+  destruct (plan_step cfg pl c) as [c2|] eqn:S; [|discriminate]. intros H B N; inv_some.
+  pose proof (plan_args_marker _ _ _ P) as Ra. unfold plan_step, call_current in S.
+  destruct (p_nno pl) as [real|].
+  - destruct (notify_new_object cfg real c) as [c1|] eqn:NN; [|discriminate].
+    assert (NE c1 /\ NM c1) as [B1 N1].
+    { unfold notify_new_object in NN. inv_some; split; try exact N; (eapply NE_le; [| |exact B]; [reflexivity | unfold crules, srules; rsimpl; lia]). }
+    destruct (call_rule_nonempty _ _ _ _ _ _ _ S (or_introl eq_refl) Ra B1 N1) as [B' [N' _]]. auto.
+  - destruct (call_rule_nonempty _ _ _ _ _ _ _ S (or_introl eq_refl) Ra B N) as [B' [N' _]]. auto.
+Qed.
+
+Lemma steps_nonempty cfg es : forall c c', steps cfg c es = Some c' -> NE c -> NM c -> NE c' /\ NM c'.
+Proof.
+  induction es as [|e es IH]; intros c c' H B N; cbn [steps] in H; [inv_some; auto|].
+  destruct (rstep cfg c e) as [[c1 o]|] eqn:R; [|discriminate].
+  destruct (rstep_nonempty _ _ _ _ _ R B N) as [B1 N1]. eauto.
+Qed.
+
+(* the empty identifier is never registered; hence every marked id is the id of a marker event *)
+Theorem marked_ids_are_markers cfg es c id :
+  state_after cfg es = Some c -> In id (akeys (marked c)) -> In (EMarker id) es.
+Proof.
+  rewrite state_after_steps. intros H I.
+  assert (NE init_rctx /\ NM init_rctx) as [B0 N0] by (split; [right; reflexivity | intros []]).
+  destruct (steps_nonempty _ _ _ _ H B0 N0) as [_ N].
+  destruct (marked_ids_are_marker_ids _ _ _ _ H I) as [->|X]; [contradiction | exact X].
+Qed.
+
+(* if every marker got registered, the marker ids of the list are pairwise distinct *)
+Theorem markers_distinct_if_all_registered cfg es c :
+  state_after cfg es = Some c -> refcount c = marker_usage es -> NoDup (marker_ids es).
+Proof.
+  intros H RC. apply (markers_distinct_if_registered cfg es c H); [|exact RC].
+  intro I. apply (marked_ids_are_markers _ _ _ _ H) in I.
+  assert (accepts cfg es = true) as A by (apply accepts_steps; exists c; apply state_after_steps; exact H).
+  apply (validate_identifier_nonempty cfg []); [|reflexivity]. eapply accepted_identifiers_valid; eauto.
+Qed.
+
+Theorem registry_invariants cfg es c :
+  state_after cfg es = Some c ->
+  NoDup (akeys (marked c)) /\ refcount c = N.of_nat (length (marked c)) /\
+  (forall id, In id (akeys (marked c)) -> In (EMarker id) es) /\
+  (forall id, In id (akeys (fwd c)) -> alookup id (marked c) = None) /\
+  (forall id, In (ERefLocal id) es -> In id (akeys (marked c)) \/ In id (akeys (fwd c))) /\
+  (e_rule (cur c) = RTerminal -> fwd c = []).
+Proof.
+  intro H. destruct (document_registry _ _ _ H) as [A1 [A2 [_ [A4 [A5 A6]]]]]. repeat split; auto.
+  intros id I. eapply marked_ids_are_markers; eauto.
+Qed.
